@@ -25,6 +25,14 @@ NOTES = ("All checks are solver-based: gosmt symbolically executes the go/ssa fo
 for _p in ["C%02d" % i for i in range(1, 21)]:
     PROPS[_p] = dict(jobs=[], na_reason="check not built yet in this session (plan: DESIGN.md §3)")
 
+PROPS["C09"] = dict(jobs=[], na_reason=(
+    "The property compares hand-written amd64 assembly (with/without ADX, AVX-512 vector kernels) and the portable Go code selected by "
+    "the purego tag. The symbolic executor works on go/ssa, where assembly routines are declarations without bodies; the machine-code "
+    "front-end sketched in DESIGN.md §3 (objdump of the freshly built package -> executor) was not built, and the AVX-512 lane "
+    "instructions (VP*) and arm64 were out of reach of a hand-written encoder from the start. Encoding only the Go side would "
+    "compare the portable code with itself, which decides nothing about the property; no other technique is substituted "
+    "(DESIGN.md §9.5). The portable paths themselves are what C01, C06, C08, C10, C14, C18, C19 analyse."))
+
 LIMBS = {"ecc/bls12-377/fp": 6, "ecc/bls12-381/fp": 6, "ecc/bw6-761/fr": 6, "ecc/bls24-315/fp": 5, "ecc/bls24-317/fp": 5,
          "ecc/bw6-633/fr": 5, "ecc/bw6-633/fp": 10, "ecc/bw6-761/fp": 12}
 
@@ -422,4 +430,85 @@ PROPS["C10"] = dict(
     outside="sizes above 64 (including the 256-point kernels), nbTasks > 1 and every goroutine schedule (the executor runs spawned goroutines "
             "at the spawn point), AVX-512 kernels of koalabear/babybear (purego build is analysed), Domain serialisation, that fr.Generator returns a primitive root",
     assumptions=["fr.Generator(m) returns a primitive root of unity of order NextPowerOfTwo(m)", "sequential schedule of goroutines", "purego build tag"],
+)
+
+
+def kzg_params(c):
+    base = "github.com/consensys/gnark-crypto/ecc/" + c
+    return dict(CurvePath=base, CurveSuffix="ecc/" + c, FrPath=base + "/fr", FrSuffix=c + "/fr",
+                LinesLen="len(curve.LoopCounter)" if c == "bn254" else "len(curve.LoopCounter) - 1")
+
+
+PROPS["C11"] = dict(
+    jobs=[Job("ecc/%s/kzg" % c, ["C11/kzg.go.tmpl"], params=kzg_params(c), jobs=8, goarch="arm64") for c in PAIRING_CURVES],
+    level_text="Proof (all scalars; polynomial lengths 1..4, batch sizes 1..3) for KZG on the 7 pairing curves: Verify accepts a tuple "
+               "([c]G1, [h]G1, v, z) exactly when c - v = (tau - z) h; BatchVerifySinglePoint accepts exactly when "
+               "sum gamma^i (c_i - v_i) = (tau - z) h; BatchVerifyMultiPoints accepts every batch of true claims, decides a batch of one "
+               "exactly and reports size mismatches; Commit/Open succeed on every polynomial that fits the SRS (including constants), "
+               "leave it unmodified, return p(z) as claimed value, and the resulting proof verifies; honest batched openings with mixed "
+               "polynomial sizes verify; size errors are reported.",
+    level_note="The pairing group is abstract: a G1 element is its discrete logarithm (interpretation cyc1), scalars are reals; the "
+               "fixed-argument pairing product check against (G2, [tau]G2) is the test log(P0) + tau*log(P1) = 0 (bilinearity and "
+               "non-degeneracy are C05's subject); scalar multiplications and multi-exponentiations are their specifications (C03, "
+               "C04). For the acceptance conditions the value tested by the pairing check is shown equal, as a polynomial in all "
+               "unknowns, to the relation (up to sign): such identities transfer from the reals to every field. The Fiat-Shamir "
+               "challenge of the batched protocol is an arbitrary scalar shared by prover and verifier (C15). Counterexamples are "
+               "replayed with the real curve, a real SRS for the model's trapdoor and the real pairing.",
+    bounds="polynomial length <= 4, SRS size <= 4, batches of <= 3",
+    outside="soundness of BatchVerifyMultiPoints against a false claim (probabilistic in the verifier's random numbers; only the "
+            "accepted relation for one claim and completeness are shown), serialisation of SRS/proofs, MPC setup, reuse of a verifying "
+            "key across verifications (C18), larger polynomials (the identity p(tau) - p(z) = (tau - z) h(tau) is size-generic but checked up to 4)",
+    assumptions=["pairing bilinear and non-degenerate; lines precomputed for (G2, [tau]G2)", "MultiExp, ScalarMultiplication, JointScalarMultiplication compute their specifications",
+                 "real-closed-field surrogate for F_r: polynomial identities transfer", "deriveGamma is a function of its inputs"],
+)
+
+
+def pairing_params(c):
+    # FinalExponentiation(x, y) = FinalExponentiation(x*y) goes through on bn254 only (elsewhere the merged easy-part branch
+    # makes the two sides syntactically different and the solver does not finish)
+    return dict(curve_params(c), LinesLen="len(LoopCounter)" if c == "bn254" else "len(LoopCounter) - 1", FinalExp=1 if c == "bn254" else 0)
+
+
+VEC_FIELDS = [("ecc/%s/fr" % c, "%s/fr" % c) for c in PAIRING_CURVES] + [("ecc/%s/fp" % c, "%s/fp" % c) for c in PAIRING_CURVES] + \
+             [("field/goldilocks", "field/goldilocks"), ("field/koalabear", "field/koalabear"), ("field/babybear", "field/babybear")]
+
+PROPS["C18"] = dict(
+    jobs=[Job("ecc/" + c, ["C05/pairing_glue.go.tmpl", "C18/pairing_frame.go.tmpl"], params=pairing_params(c), jobs=4, goarch="arm64", label="ecc/%s:pairingframe" % c, only="H_Frame") for c in PAIRING_CURVES] +
+         [Job(m, ["C14/mimc_round.go.tmpl", "C18/mimc_frame.go.tmpl"], params=dict(FrPath="github.com/consensys/gnark-crypto/" + m[:-5], FrSuffix=m[4:-5], MimcD=MIMC_D.get(m, 5)),
+              label=m + ":frame", only="H_Frame") for m in MIMC] +
+         [Job(fp, ["C18/vector_frame.go.tmpl"], params=dict(ElemSuffix=fs), jobs=4, label=fp + ":vector") for fp, fs in VEC_FIELDS] +
+         [Job(fp + "/fft", ["C10/fft.go.tmpl", "C18/fft_frame.go.tmpl"], params=fft_params(fp, fs, 8, []), jobs=4, label=fp + "/fft:frame", only="H_Frame") for fp, fs in FFT_FIELDS] +
+         [Job("ecc/%s/kzg" % c, ["C11/kzg.go.tmpl", "C18/kzg_frame.go.tmpl"], params=kzg_params(c), jobs=4, goarch="arm64", label="ecc/%s/kzg:frame" % c, only="H_Frame") for c in PAIRING_CURVES],
+    level_text="Proof of frame conditions and repeatability (sequential semantics) for shared read-only objects: FFT domains with all "
+               "their tables during FFT/FFTInverse (10 fields, both decimations, coset, tables on/off); KZG proving and verifying keys, "
+               "digests, proofs, points and polynomials during Commit/Open/Verify/BatchOpenSinglePoint/BatchVerifySinglePoint/"
+               "BatchVerifyMultiPoints (7 curves); precomputed pairing lines during MillerLoopFixedQ (7 curves); operands of the vector "
+               "operations (17 fields, portable path); package-level state of MiMC after its lazy initialisation and the data written to "
+               "the hasher (8 curves). Each harness marks the shared objects read-only (any store is a violated obligation) and asserts "
+               "that repeating the call returns the same result.",
+    level_note="Interpretations as in C10 (ring), C11 (abstract pairing group), C05/C14 (uninterpreted products). The executor gives Go "
+               "one sequential schedule (goroutines run at their spawn point): absence of writes to shared inputs is the "
+               "schedule-independent sufficient condition for the concurrent part of the property; data races on internal scratch "
+               "state, GOMAXPROCS and timing are not examined.",
+    bounds="FFT N = 8; KZG polynomial length <= 3; one pair for the Miller loop; vectors of length 0, 1, 5; two MiMC blocks",
+    outside="goroutine interleavings, data-race freedom, GOMAXPROCS/task-count independence, sync.Pool contents, MSM and batch conversions, "
+            "Poseidon2/SIS parameters, assembly paths",
+    assumptions=["sequential schedule", "purego / arm64 (portable) code paths"],
+)
+
+
+PROPS["C05"] = dict(
+    jobs=[Job("ecc/" + c, ["C05/pairing_glue.go.tmpl"], params=pairing_params(c), jobs=4, goarch="arm64") for c in PAIRING_CURVES],
+    level_text="Proof (all coordinates) of the glue of the pairing API on the 7 pairing curves: a pair containing a point at infinity, in "
+               "G1 or G2 and at any position, contributes the identity to MillerLoop (the loop on the remaining pairs performs "
+               "the same field operations; only-infinity inputs give one); on bn254 FinalExponentiation(x, y) = FinalExponentiation(x*y); size mismatches and empty inputs are errors "
+               "for MillerLoop, Pair, PairingCheck, MillerLoopFixedQ, PairFixedQ, PairingCheckFixedQ.",
+    level_note="Base-field elements are interpreted by canonical values with uninterpreted products; each claim is an equality between "
+               "two executions of the real Miller loop / final exponentiation (66-190 iterations, whole tower arithmetic executed) that "
+               "holds when both perform the same operations on the same data, hence for every field. Nothing is claimed about the "
+               "value computed: bilinearity, non-degeneracy and the equality of projective and fixed-argument (affine lines) variants "
+               "after the final exponentiation are mathematical facts about the formulas that this technique does not reach.",
+    bounds="k <= 2 pairs; arbitrary coordinates (points are not required to be on the curve: the claims hold for all inputs)",
+    outside="bilinearity, non-degeneracy, exact order r, equality of MillerLoop and MillerLoopFixedQ after final exponentiation, Pair = FinalExponentiation o MillerLoop (two symbolic final exponentiations do not finish), multi-pairing with k > 2",
+    assumptions=["uninterpreted field products (AC, sign, zero)", "sequential execution"],
 )
